@@ -35,6 +35,12 @@ Section Erase.
     now apply er_drop.
   Qed.
 
+  Lemma erase_drop_prefix : forall x k, erase (concat x ++ k) k x.
+  Proof.
+    induction x as [|s x IH]; intro k; cbn [concat app]; [apply erase_refl|].
+    rewrite <- app_assoc. now apply er_drop.
+  Qed.
+
   Lemma erase_app_keep : forall w k x b, erase w k x -> erase (w ++ b) (k ++ b) x.
   Proof.
     intros w k x b H. induction H.
@@ -714,6 +720,24 @@ Section QueueProofs.
   Lemma G_erase : forall (q : queue) W R X, G q W R X -> erase W (R ++ pending q) X.
   Proof.
     intros q W R X (W1 & -> & He). rewrite pending_split, app_assoc. now apply erase_app_keep.
+  Qed.
+
+  Lemma G_any : forall (q : queue) R X, G q (concat X ++ R ++ pending q) R X.
+  Proof.
+    intros q R X. exists (concat X ++ R ++ front_slice q). split.
+    - rewrite pending_split, <- !app_assoc. reflexivity.
+    - apply erase_drop_prefix.
+  Qed.
+
+  (* an Ok run from a state satisfying the invariant keeps it *)
+  Lemma exec_ok_inv : forall ops (q : queue) R X q' R' X' B,
+    Inv q -> total_len (chunks q) + length (written ops) <= B -> (N.of_nat B <= usize_max)%N ->
+    exec q ops R X = Ok (q', R', X') -> Inv q' /\ total_len (chunks q') <= B.
+  Proof.
+    intros ops q R X q' R' X' B HI Htot HB E.
+    destruct (exec_sound ops q R X _ B HI Htot HB (G_any q R X))
+      as [[E2 _]|(q2 & R2 & X2 & E2 & HI2 & _ & Htot2)]; rewrite E in E2; [discriminate|].
+    inversion E2; subst. auto.
   Qed.
 
   (* Every history of calls on a fresh queue, as long as fewer than 2^64 bytes are written in
